@@ -559,6 +559,8 @@ def inline_tail_calls(repo, func, depth=2, keep=None):
             call, kind = st.value, "assign"
         elif isinstance(st, ast.Expr) and isinstance(st.value, ast.Call):
             call, kind = st.value, "expr"
+        elif isinstance(st, ast.Expr) and isinstance(st.value, ast.YieldFrom) and isinstance(st.value.value, ast.Call):
+            call, kind = st.value.value, "yieldfrom"
         callee = repo.resolve_call(func, call) if call is not None else None
         if callee is None or callee is func or same_func(callee, func) or callee.module is not func.module:
             return None
@@ -568,7 +570,10 @@ def inline_tail_calls(repo, func, depth=2, keep=None):
             if not (isinstance(call.func, ast.Attribute) and isinstance(call.func.value, ast.Name) and repo.local_class_of(func, call.func.value.id) == (callee.module.name, callee.cls) and callee.params and callee.params[0] == "self" and callee.name != "__init__"):
                 return None
             recv = call.func.value.id
-        if any(isinstance(x, (ast.Yield, ast.YieldFrom)) for x in ast.walk(callee.node)):
+        is_gen = any(isinstance(x, (ast.Yield, ast.YieldFrom)) for x in ast.walk(callee.node))
+        if is_gen != (kind == "yieldfrom"):
+            return None
+        if is_gen and any(isinstance(x, ast.Return) for x in ast.walk(callee.node)):
             return None
         if keep is not None and keep(callee):
             return None
@@ -578,7 +583,12 @@ def inline_tail_calls(repo, func, depth=2, keep=None):
         if kind == "expr" and ((callee.cls is not None and recv is None) or any(isinstance(x, ast.Return) and x.value is not None for x in ast.walk(callee.node))):
             return None  # only plain procedures (no result) are inlined at statement calls
         params = callee.params[1:] if (callee.cls and isinstance(call.func, ast.Attribute)) else callee.params
+        vararg = callee.node.args.vararg.arg if callee.node.args.vararg is not None else None
+        params = [p_ for p_ in params if p_ != vararg]
         amap = {p_: a for p_, a in zip(params, call.args)}
+        extra_args = list(call.args[len(params):])
+        if extra_args and vararg is None:
+            return None
         for k in call.keywords:
             if k.arg:
                 amap[k.arg] = k.value
@@ -605,7 +615,30 @@ def inline_tail_calls(repo, func, depth=2, keep=None):
             else:
                 exprs[p_] = a
         body = [_Rename(names, exprs).visit(copy.deepcopy(x)) for x in cbody]
+        if vararg is not None:
+            # f(x, *extra) inside the helper, with extra bound to the surplus positional arguments of this call
+            if any(isinstance(x, ast.Name) and x.id == vararg and not isinstance(getattr(x, "_star_parent", None), ast.Starred) for b_ in body for x in ast.walk(b_) if False):
+                return None
+            ok_var = [True]
+
+            class V(ast.NodeTransformer):
+                def visit_Call(self, node):
+                    self.generic_visit(node)
+                    new_args = []
+                    for a in node.args:
+                        if isinstance(a, ast.Starred) and isinstance(a.value, ast.Name) and a.value.id == vararg:
+                            new_args.extend(copy.deepcopy(extra_args))
+                        else:
+                            new_args.append(a)
+                    node.args = new_args
+                    return node
+
+            body = [V().visit(x) for x in body]
+            if any(isinstance(x, ast.Name) and x.id == vararg for b_ in body for x in ast.walk(b_)):
+                return None  # the tuple itself is used: not expressible by substitution
         rets = [x for b_ in body for x in ast.walk(b_) if isinstance(x, ast.Return)]
+        if kind == "yieldfrom":
+            return pre + body
         if kind == "assign":
             tg = st.targets[0]
             pairs = None
@@ -995,7 +1028,7 @@ def inline_access_aliases(func):
         # the aliased object must not be mutated while the alias is live: no mutation of a root of the path inside the
         # loop that contains the definition, nor anywhere after the definition
         roots = {x.id for x in ast.walk(d) if isinstance(x, ast.Name)}
-        dstmt = next((st for st in ast.walk(func.node) if isinstance(st, ast.Assign) and st.value is d), None)
+        dstmt = next((st for st in ast.walk(func.node) if isinstance(st, ast.Assign) and (st.value is d or (isinstance(d, ast.Subscript) and st.value is d.value and isinstance(st.targets[0], (ast.Tuple, ast.List))))), None)
         if dstmt is None:
             continue
         loop = None
@@ -1155,6 +1188,44 @@ def desugar_ifexp(func):
         return func
     ast.fix_missing_locations(node)
     return Func(func.module, func.qualname, node, func.cls, func.parent)
+
+
+def de_enumerate(func):
+    """A Func in which   for i, x in enumerate(IT[, start]): BODY   is written   i = start - 1; for x in IT: i += 1; BODY
+    (the counter is stepped first, so a `continue` in BODY cannot skip it)."""
+    import copy
+
+    changed = [False]
+
+    def block(stmts):
+        out = []
+        for st in stmts:
+            for fld in ("body", "orelse", "finalbody"):
+                lst = getattr(st, fld, None)
+                if isinstance(lst, list) and lst and isinstance(lst[0], ast.stmt) and not isinstance(st, (ast.FunctionDef, ast.AsyncFunctionDef, ast.ClassDef)):
+                    setattr(st, fld, block(lst))
+            if isinstance(st, ast.Try):
+                for h in st.handlers:
+                    h.body = block(h.body)
+            if isinstance(st, ast.For) and isinstance(st.iter, ast.Call) and isinstance(st.iter.func, ast.Name) and st.iter.func.id == "enumerate" and isinstance(st.target, ast.Tuple) and len(st.target.elts) == 2 and isinstance(st.target.elts[0], ast.Name) and st.iter.args:
+                start = st.iter.args[1] if len(st.iter.args) > 1 else next((k.value for k in st.iter.keywords if k.arg == "start"), ast.Constant(value=0))
+                if isinstance(start, ast.Constant) and isinstance(start.value, int):
+                    cnt = st.target.elts[0].id
+                    init = ast.copy_location(ast.Assign(targets=[ast.Name(id=cnt, ctx=ast.Store())], value=ast.Constant(value=start.value - 1)), st)
+                    step = ast.copy_location(ast.AugAssign(target=ast.Name(id=cnt, ctx=ast.Store()), op=ast.Add(), value=ast.Constant(value=1)), st)
+                    loop = ast.copy_location(ast.For(target=st.target.elts[1], iter=st.iter.args[0], body=[step] + st.body, orelse=st.orelse), st)
+                    out += [init, loop]
+                    changed[0] = True
+                    continue
+            out.append(st)
+        return out
+
+    root = copy.deepcopy(func.node)
+    root.body = block(root.body)
+    if not changed[0]:
+        return func
+    ast.fix_missing_locations(root)
+    return Func(func.module, func.qualname, root, func.cls, func.parent)
 
 
 def desugar_comprehensions(func):
